@@ -141,17 +141,32 @@ def _first_walrus(root):
             visit(c, cond)
 
     visit(root, False)
+    order = list(eval_order(root))
     for w, cond in found:
         if cond or not isinstance(w.target, ast.Name):
             return None
-        # impure calls that end before the walrus starts and do not enclose it
-        pos = (w.lineno, w.col_offset)
-        for c in ast.walk(root):
-            if isinstance(c, ast.Call) and not any(x is w for x in ast.walk(c)) and (c.lineno, c.col_offset) < pos:
+        # impure calls evaluated before the walrus (in evaluation order) that do not enclose it
+        for c in order:
+            if c is w:
+                break
+            if isinstance(c, ast.Call) and not any(x is w for x in ast.walk(c)):
                 if not (isinstance(c.func, ast.Name) and c.func.id in PURE_FUNCS):
                     return None
         return w
     return None
+
+
+def eval_order(n):
+    """nodes of an expression in the order their evaluation starts (conditional expressions: test first)"""
+    yield n
+    if isinstance(n, ast.IfExp):
+        for part in (n.test, n.body, n.orelse):
+            yield from eval_order(part)
+        return
+    if isinstance(n, (ast.Lambda,)):
+        return
+    for c in ast.iter_child_nodes(n):
+        yield from eval_order(c)
 
 
 class WalrusHoist:
